@@ -90,12 +90,42 @@ def splice(ix, paths, want, rounds=3, min_paths=1):
     return work
 
 
+def _negative_is_strict(ix):
+    """Integer::is_negative(x) answers true only for x != 0 - decided from the function's own paths: every path that can
+    return true either tests the magnitude non-zero or returns that test"""
+    r = getattr(ix, "_neg_strict", None)
+    if r is not None:
+        return r
+    r = False
+    fs = [f for f in ix.world.fns.values() if f.pretty.endswith("::Integer::is_negative") and f.crate == "margined_common"]
+    if len(fs) == 1:
+        try:
+            r = True
+            n = 0
+            for p in ix.ok_paths(fs[0]):
+                ret = p.ret
+                if tag(ret) == "bool" and not payload(ret)[0]:
+                    continue
+                n += 1
+                self0 = sym.param(fs[0].key, 0, fs[0].param_name(0))
+                mag_zero = sym.op("is_zero", sym.field(self0, "value"))
+                tests = any(c[0] == mag_zero and c[1] is False for c in p.conds)
+                if not (tests or ret == sym.op("not", mag_zero)):
+                    r = False
+            r = r and n > 0
+        except Exception:
+            r = False
+    ix._neg_strict = r
+    return r
+
+
 def sign_tests(ix, conds):
     """canonical sign tests among branch decisions: [(kind, X, outcome)] with kind in is_negative / is_positive / is_zero
     and X the signed value tested.  Besides the predicate calls this reads a branch on the raw sign flag
     (`x.negative`, e.g. after destructuring `Integer { value, negative }`) as is_negative(x) and a zero test of the raw
     magnitude (`x.value.is_zero()`) as is_zero(x)."""
     out = []
+    strict = _negative_is_strict(ix)
     for c in conds:
         at, o = c[0], c[1]
         if o not in (True, False):
@@ -107,6 +137,9 @@ def sign_tests(ix, conds):
         o2 = (not o) if neg else o
         if tag(a) == "call" and kids(a) and str(payload(a)[0]).endswith(("Integer::is_negative", "Integer::is_positive", "Integer::is_zero")):
             out.append((str(payload(a)[0]).split("::")[-1], kids(a)[0], o2))
+            if strict and o2 is True and str(payload(a)[0]).endswith("Integer::is_negative"):
+                # the sign predicate is strict by its own definition (read from the code): a negative value is not zero
+                out.append(("is_zero", kids(a)[0], False))
         elif tag(a) == "field" and payload(a)[0] == "negative":
             out.append(("is_negative", kids(a)[0], o2))
         elif tag(a) == "op" and payload(a)[0] == "is_zero" and kids(a) and tag(kids(a)[0]) == "field" and payload(kids(a)[0])[0] == "value":
